@@ -67,6 +67,17 @@ Theorem C16_once_per_token_source :
   src_scheduleRenewal_loops = 0%nat.
 Proof. repeat split; reflexivity. Qed.
 
+(* ---- every request counted in pendingReq is released again on every path (or a renewal would wait for ever with
+   the gate locked): pinned to the source.  In SendRequestWithTimeout every return after the Add either follows a
+   Done() in its own block or hands over to sendRequestWithTimeout; there Done() is a top-level statement before
+   any return; open() adds and hands over at once.  The thread model's EDone/ERenOpn steps rely on exactly this. ---- *)
+Theorem C16_pending_count_balanced_source :
+  forallb snd src_returns_after_add_SendRequestWithTimeout = true /\
+  List.length src_returns_after_add_SendRequestWithTimeout = 2%nat /\
+  src_done_before_any_return_sendRequestWithTimeout = true /\
+  src_open_add_then_handover = true.
+Proof. repeat split; reflexivity. Qed.
+
 (* ---- requests around a renewal ---- *)
 
 (* FULL: under every interleaving of any number of senders and renewals (succeeding or failing) every chunk is
@@ -125,6 +136,7 @@ Print Assumptions C16_token_lifetime.
 Print Assumptions C16_renewal_before_granted_lifetime_ends.
 Print Assumptions C16_refuted_instant_before_fix.
 Print Assumptions C16_once_per_token_source.
+Print Assumptions C16_pending_count_balanced_source.
 Print Assumptions C16_no_chunk_under_superseded_token.
 Print Assumptions C16_tokens_never_go_back.
 Print Assumptions C16_refuted_before_fix_old_token_after_renewal.
